@@ -75,19 +75,14 @@ pub proof fn lemma_registered(i: int)
 }
 
 // what a controller may do to the response it is given: choose a registered status, replace the content, keep the headers
-// what a controller may do to the response it is handed: keep version and header list (C10), choose a registered status (C05).
-// The two halves are separate postconditions so that a failure is reported under the property it belongs to.
-pub open spec fn frame_headers(old: Response, new: Response) -> bool {
-    new.http_version@ == old.http_version@ && hvs(new.headers@) == hvs(old.headers@)
+pub open spec fn frame_ok(old: Response, new: Response) -> bool {
+    new.http_version@ == old.http_version@ && hvs(new.headers@) == hvs(old.headers@) && registered(new.status_code, new.reason_phrase@)
 }
-pub open spec fn frame_headers_static(old: Response, new: Response) -> bool {
-    new.http_version@ == old.http_version@
+pub open spec fn frame_ok_static(old: Response, new: Response) -> bool {
+    new.http_version@ == old.http_version@ && registered(new.status_code, new.reason_phrase@)
     && (hvs(new.headers@) == hvs(old.headers@)
         || exists|v: Seq<char>| #![auto] hvs(new.headers@) == hvs(old.headers@).push((Header::_LAST_MODIFIED_UNIX_EPOCH_NANOS@, v)))
 }
-pub open spec fn frame_status(new: Response) -> bool { registered(new.status_code, new.reason_phrase@) }
-pub open spec fn frame_ok(old: Response, new: Response) -> bool { frame_headers(old, new) && frame_status(new) }
-pub open spec fn frame_ok_static(old: Response, new: Response) -> bool { frame_headers_static(old, new) && frame_status(new) }
 
 
 pub open spec fn err_registered(e: Error) -> bool { registered(*e.status_code_reason_phrase.status_code, e.status_code_reason_phrase.reason_phrase@) }
